@@ -75,6 +75,11 @@ inline int vf_pay(boost::any const& a) { return vf_pay_boostany(a); }
 template <int N> struct Act {
   template <class E, class F, class S, class T> void operator()(E const& e, F& f, S&, T&) { vf_log(VF_ACT(N), vf_pay(e)); VF_PROBE(2, N, f) VF_BEHAV_HOOK(2, N, e, f) }
 };
+// guard of a completion (anonymous) transition: logged in its own class (see DESIGN C10)
+extern "C" int vf_guardc(int site);
+template <int N> struct Gc {
+  template <class E, class F, class S, class T> bool operator()(E const&, F&, S&, T&) { return vf_guardc(N) != 0; }
+};
 template <int N> struct Gd {
   template <class E, class F, class S, class T> bool operator()(E const& e, F& f, S&, T&) { VF_PROBE(0, N, f) VF_BEHAV_HOOK(3, N, e, f) return vf_guard(N) != 0; }
 };
@@ -96,6 +101,7 @@ template <int N> struct Gd {
 #define VF_ROOT_H(F, H) typedef VF_SM_H(F, H) M;
 #define VF_FRONT_HISTORY(X)
 #define VF_IS_MP11 0
+#define VF_FLAG_AND(obj, F) (obj).template is_flag_active<F, typename M::Flag_AND>()
 #elif VF_BE == 2
 #define VF_SM(F) msm::back11::state_machine<F, void, vf_queue_policy>
 #define VF_SM_H(F, H) msm::back11::state_machine<F, void, H, vf_queue_policy>
@@ -108,6 +114,7 @@ template <int N> struct Gd {
 #define VF_ROOT_H(F, H) typedef VF_SM_H(F, H) M;
 #define VF_FRONT_HISTORY(X)
 #define VF_IS_MP11 0
+#define VF_FLAG_AND(obj, F) (obj).template is_flag_active<F, typename M::Flag_AND>()
 #else
 #if VF_BE == 3
 struct vf_policy : msm::backmp11::favor_runtime_speed {};
@@ -135,6 +142,7 @@ struct vf_cfg : msm::backmp11::default_state_machine_config {
 #define VF_ROOT_H(F, H) VF_ROOT(F)
 #define VF_FRONT_HISTORY(X) typedef X history;
 #define VF_IS_MP11 1
+#define VF_FLAG_AND(obj, F) (obj).template is_flag_active<F, msm::backmp11::flag_and>()
 #endif
 
 #if defined(BOOST_NO_EXCEPTIONS)
